@@ -33,7 +33,7 @@ MODES = {
     'C18': ['applyparam'],
     'C19': ['txsim'],
     'C09': ['determinism'],
-    'C20': ['malformed'],
+    'C20': ['malformed', 'applyparam_np'],
 }
 
 
